@@ -42,7 +42,8 @@ def verus_run(path, seed=0, multiple=24, rlimit=None, timeout=900):
         cmd += ["--rlimit", str(rlimit)]
     t0 = time.time()
     try:
-        r = subprocess.run(cmd, capture_output=True, text=True, timeout=timeout)
+        # rustc writes `<file>.long-type-<hash>.txt` next to the cwd for long types in diagnostics: keep them in the out dir
+        r = subprocess.run(cmd, capture_output=True, text=True, timeout=timeout, cwd=os.path.dirname(os.path.abspath(path)) or None)
     except subprocess.TimeoutExpired:
         return {"cmd": " ".join(cmd), "timeout": True, "wall": time.time() - t0, "diags": [], "json": None, "rc": -1, "stderr": ""}
     diags = []
